@@ -37,6 +37,7 @@ func (l Loc) String() string {
 type writeInfo struct {
 	ident bool // every write here stores the current value of IdSrc (same path => no-op under aliasing)
 	src   Loc
+	lazy  bool // every write here is a lazy initialisation of a nil pointer field (`if z.f == nil { z.f = new(T) }`)
 }
 
 type Hazard struct{ W, R Loc }
@@ -45,11 +46,12 @@ type Summary struct {
 	Reads   map[Loc]bool
 	Writes  map[Loc]writeInfo
 	Haz     map[Hazard]token.Pos // position of the offending read
+	Sub     map[Hazard]token.Pos // sub-object hazards: the read root may be a component of the written root (or vice versa)
 	Unknown []string             // callees that could not be summarised (reported, not ignored)
 }
 
 func newSummary() *Summary {
-	return &Summary{Reads: map[Loc]bool{}, Writes: map[Loc]writeInfo{}, Haz: map[Hazard]token.Pos{}}
+	return &Summary{Reads: map[Loc]bool{}, Writes: map[Loc]writeInfo{}, Haz: map[Hazard]token.Pos{}, Sub: map[Hazard]token.Pos{}}
 }
 
 const maxPathElems = 6
@@ -610,7 +612,7 @@ func (e *Effects) Summary(fn *ssa.Function) *Summary {
 		s = e.analyse(fn)
 		old := e.sums[fn]
 		e.sums[fn] = s
-		if len(s.Reads) == len(old.Reads) && len(s.Writes) == len(old.Writes) && len(s.Haz) == len(old.Haz) {
+		if len(s.Reads) == len(old.Reads) && len(s.Writes) == len(old.Writes) && len(s.Haz) == len(old.Haz) && len(s.Sub) == len(old.Sub) {
 			break
 		}
 	}
@@ -838,11 +840,27 @@ func (e *Effects) analyse(fn *ssa.Function) (res *Summary) {
 		typeMemo[k] = v
 		return v
 	}
+	subMemo := map[[2]Loc]bool{}
+	subOverlap := func(w, r Loc) bool {
+		k := [2]Loc{w, r}
+		if v, ok := subMemo[k]; ok {
+			return v
+		}
+		v := subObjectOverlap(rootType(fn, w.Root), w.Path, rootType(fn, r.Root), r.Path)
+		subMemo[k] = v
+		return v
+	}
 	read := func(cur dirtySet, l Loc, pos token.Pos) {
 		s.Reads[l] = true
 		for d := range cur {
 			if d.w.Root == l.Root || d.w.Root < 0 || l.Root < 0 {
 				continue // same object: ordinary sequential semantics; globals are not operands
+			}
+			if subOverlap(d.w, l) {
+				h := Hazard{d.w, l}
+				if _, ok := s.Sub[h]; !ok {
+					s.Sub[h] = pos
+				}
 			}
 			if !pathsOverlap(d.w.Path, l.Path) {
 				continue
@@ -925,8 +943,26 @@ func (e *Effects) analyse(fn *ssa.Function) (res *Summary) {
 				}
 			}
 		}
+		for h := range cs.Sub {
+			for _, mw := range mapLoc(h.W) {
+				for _, mr := range mapLoc(h.R) {
+					if mw.Root != mr.Root && mw.Root >= 0 && mr.Root >= 0 && subOverlap(mw, mr) {
+						hz := Hazard{mw, mr}
+						if _, ok := s.Sub[hz]; !ok {
+							s.Sub[hz] = pos
+						}
+					}
+				}
+			}
+		}
 		for l, wi := range cs.Writes {
 			for _, m := range mapLoc(l) {
+				if wi.lazy {
+					if _, ok := s.Writes[m]; !ok {
+						s.Writes[m] = writeInfo{lazy: true}
+					}
+					continue
+				}
 				if wi.ident {
 					srcs := mapLoc(wi.src)
 					if len(srcs) == 1 && strings.TrimPrefix(m.Path, "") != "" || len(srcs) == 1 {
@@ -970,9 +1006,37 @@ func (e *Effects) analyse(fn *ssa.Function) (res *Summary) {
 					}
 				}
 				hdr := isPtrLikeType(x.Val.Type())
+				// lazy initialisation `if z.f == nil { z.f = new(T) }`: the store happens only when
+				// the location held nil, i.e. never for an operand that is a valid (initialised)
+				// object; it is a modification but not a source of aliasing hazards
+				nilInit := false
+				if hdr && len(dst) == 1 && len(b.Preds) == 1 {
+					if iff, ok := b.Preds[0].Instrs[len(b.Preds[0].Instrs)-1].(*ssa.If); ok {
+						at := atomOf(iff.Cond)
+						if at.Kind == "nilcmp" {
+							nilSide := 0
+							if at.Neg {
+								nilSide = 1
+							}
+							if b.Preds[0].Succs[nilSide] == b {
+								if ld, ok := at.X.(*ssa.UnOp); ok && ld.Op == token.MUL {
+									if sl := r.addrLocs(ld.X); len(sl) == 1 && sl[0] == dst[0] {
+										nilInit = true
+									}
+								}
+							}
+						}
+					}
+				}
 				for _, l := range dst {
 					if hdr {
 						l.Path = joinPath(l.Path, ".$hdr")
+						if nilInit {
+							if _, ok := s.Writes[l]; !ok {
+								s.Writes[l] = writeInfo{lazy: true}
+							}
+							continue
+						}
 						write(cur, l, false, Loc{})
 						continue
 					}
@@ -1154,7 +1218,9 @@ func (e *Effects) analyse(fn *ssa.Function) (res *Summary) {
 		if wi.ident {
 			wi.src = clean(wi.src)
 		}
-		if old, ok := cs.Writes[cl]; ok && !(old.ident && wi.ident && old.src == wi.src) {
+		if old, ok := cs.Writes[cl]; ok && old.lazy && wi.lazy {
+			cs.Writes[cl] = writeInfo{lazy: true}
+		} else if ok && !(old.ident && wi.ident && old.src == wi.src) {
 			cs.Writes[cl] = writeInfo{}
 		} else {
 			cs.Writes[cl] = wi
@@ -1162,6 +1228,9 @@ func (e *Effects) analyse(fn *ssa.Function) (res *Summary) {
 	}
 	for h, pos := range s.Haz {
 		cs.Haz[Hazard{clean(h.W), clean(h.R)}] = pos
+	}
+	for h, pos := range s.Sub {
+		cs.Sub[Hazard{clean(h.W), clean(h.R)}] = pos
 	}
 	cs.Unknown = s.Unknown
 	compressSummary(fn, cs)
@@ -1180,6 +1249,86 @@ func (s *Summary) WritesRoot(k int) []string {
 	}
 	sort.Strings(out)
 	return out
+}
+
+// SubBetween: sub-object hazards where root w is written and root r read afterwards.
+func (s *Summary) SubBetween(w, r int) []Hazard {
+	var out []Hazard
+	for h := range s.Sub {
+		if h.W.Root == w && h.R.Root == r {
+			out = append(out, h)
+		}
+	}
+	sort.Slice(out, func(i, j int) bool {
+		if out[i].W.Path != out[j].W.Path {
+			return out[i].W.Path < out[j].W.Path
+		}
+		return out[i].R.Path < out[j].R.Path
+	})
+	return out
+}
+
+var embedMemo sync.Map
+
+// embeddings: access paths inside a value of type outer at which a value of type inner is
+// stored (struct fields, array and slice elements; pointers are not followed: a pointed-to
+// object is not a component). Bounded in depth and number.
+func embeddings(outer, inner types.Type) []string {
+	key := types.TypeString(outer, nil) + "\x00" + types.TypeString(inner, nil)
+	if v, ok := embedMemo.Load(key); ok {
+		return v.([]string)
+	}
+	var out []string
+	var walk func(t types.Type, path string, d int)
+	walk = func(t types.Type, path string, d int) {
+		if d > 6 || len(out) > 64 {
+			return
+		}
+		if d > 0 && types.Identical(t, inner) {
+			out = append(out, path)
+			return
+		}
+		switch u := t.Underlying().(type) {
+		case *types.Struct:
+			for i := 0; i < u.NumFields(); i++ {
+				walk(u.Field(i).Type(), path+"."+u.Field(i).Name(), d+1)
+			}
+		case *types.Array:
+			walk(u.Elem(), path+"[*]", d+1)
+		case *types.Slice:
+			walk(u.Elem(), path+"[*]", d+1)
+		}
+	}
+	walk(outer, "", 0)
+	embedMemo.Store(key, out)
+	return out
+}
+
+// subObjectOverlap: may memory written at wPath under a root of type wt be memory read at rPath
+// under a root of type rt when one root points INTO the other (strict component)?
+func subObjectOverlap(wt types.Type, wPath string, rt types.Type, rPath string) bool {
+	if wt == nil || rt == nil {
+		return false
+	}
+	wo, ro := derefAll(wt), derefAll(rt)
+	if types.Identical(wo, ro) {
+		return false
+	}
+	// only pointer operands designate a single component; slices designate ranges (handled as
+	// whole-object aliasing)
+	wPath = strings.TrimSuffix(strings.TrimSuffix(wPath, "[…]"), ".$hdr")
+	rPath = strings.TrimSuffix(strings.TrimSuffix(rPath, "[…]"), ".$hdr")
+	for _, q := range embeddings(wo, ro) {
+		if pathsOverlap(wPath, q+rPath) {
+			return true
+		}
+	}
+	for _, q := range embeddings(ro, wo) {
+		if pathsOverlap(q+wPath, rPath) {
+			return true
+		}
+	}
+	return false
 }
 
 // HazBetween: hazards where root w is written and root r read afterwards.
@@ -1503,6 +1652,17 @@ func compressSummary(fn *ssa.Function, s *Summary) {
 			}
 		}
 		s.Haz = nh
+	}
+	if len(s.Sub) > 0 {
+		nh := map[Hazard]token.Pos{}
+		for h, pos := range s.Sub {
+			h.W.Path = capPath(h.W.Path, 4)
+			h.R.Path = capPath(h.R.Path, 4)
+			if _, ok := nh[h]; !ok {
+				nh[h] = pos
+			}
+		}
+		s.Sub = nh
 	}
 }
 
